@@ -61,9 +61,9 @@ def conditions(tier: str):
             pre + ["return v.get_byte(i) == r_byte(ref, i) and v[i] == r_byte(ref, i)"])
         add(f"R.get_word.{tag}", "P.read", nx, [("w", 0, MAXO)],
             pre + ['return v.get_word(w) == int.from_bytes(r_read(ref, w, w + 32), "big")'])
-        sranges = [(0, 1), (2, 3), (4, 5), (6, 7), (8, 12), (13, 24), (25, MAXO)] if tag == "plain" or thorough \
+        sranges = [(0, 1), (2, 3), (4, 5), (6, 7), (8, 12), (13, 24), (25, MAXO)] if thorough \
             else [(0, 2), (3, 5), (6, 8)]
-        emax = MAXO if tag == "plain" or thorough else 12
+        emax = MAXO if thorough else 12
         for lo, hi in sranges:
             add(f"R.slice.{tag}.s{lo}-{hi}", "P.read", nx, [("s", lo, hi), ("e", 0, emax)],
                 pre + ["sl = v.slice(s, e)",
@@ -84,44 +84,46 @@ def conditions(tier: str):
     for lo, hi in _split(0, MAXO, 2):
         add(f"W.set_byte.a{lo}-{hi}", "P.write", k + 1, [("a", lo, hi)],
             [mk, f"v.set_byte(a, x{k}); r_write(ref, a, bytes([x{k}]))", "return full_reads(v, ref)"])
-        add(f"W.setitem_byte.a{lo}-{hi}", "P.write", k + 1, [("a", lo, hi)],
-            [mk, f"v[a] = x{k}; r_write(ref, a, bytes([x{k}]))", "return full_reads(v, ref)"])
-    for lo, hi in _split(0, MAXO, 3):
+        if thorough:
+            add(f"W.setitem_byte.a{lo}-{hi}", "P.write", k + 1, [("a", lo, hi)],
+                [mk, f"v[a] = x{k}; r_write(ref, a, bytes([x{k}]))", "return full_reads(v, ref)"])
+    for lo, hi in (_split(0, MAXO, 3) if thorough else [(0, 13)]):
         add(f"W.set_word.a{lo}-{hi}", "P.write", k + 2, [("a", lo, hi)],
             [mk, f"wd = bytes([x{k}, x{k + 1}] * 16)", "v.set_word(a, wd); r_write(ref, a, wd)",
              "return full_reads(v, ref)"])
     # MCOPY-like self copy: all three symbolic
-    for lo, hi in _split(0, 11, 4) + ([(12, 25), (26, MAXO)] if thorough else []):
-        add(f"W.mcopy.d{lo}-{hi}", "P.write", k, [("d", lo, hi), ("s", 0, 9), ("n", 0, 3)],
+    smax, nmax = (9, 3) if thorough else (7, 2)
+    for lo, hi in (_split(0, 11, 4) + [(12, 25), (26, MAXO)] if thorough else _split(0, 8, 3)):
+        add(f"W.mcopy.d{lo}-{hi}", "P.write", k, [("d", lo, hi), ("s", 0, smax), ("n", 0, nmax)],
             [mk, "mcopy(v, ref, d, s, n)", "return full_reads(v, ref)"])
     add("W.append", "P.write", k + 3, [("n", 0, 3)],
         [mk, f"d = bytes([x{k}, x{k + 1}, x{k + 2}][:n])", "v.append(d); ref.extend(d)", "return full_reads(v, ref)"])
 
     # ---- two writes ---------------------------------------------------------------------------------------
-    for lo, hi in _split(0, 8, 3):
-        add(f"W2.slice_slice.a{lo}-{hi}", "P.write2", k + 4, [("a", lo, hi), ("b", 0, 8), ("n", 0, 2)],
+    for lo, hi in (_split(0, 8, 3) if thorough else [(0, 2)]):
+        add(f"W2.slice_slice.a{lo}-{hi}", "P.write2", k + 4, [("a", lo, hi), ("b", 0, 8 if thorough else 6), ("n", 0, 2)],
             [mk, f"v.set_slice(a, a + 2, bytes([x{k}, x{k + 1}])); r_write(ref, a, bytes([x{k}, x{k + 1}]))",
              f"d = bytes([x{k + 2}, x{k + 3}][:n])", "v.set_slice(b, b + len(d), d); r_write(ref, b, d)",
              "return full_reads(v, ref)"])
-    for lo, hi in _split(0, 8, 2):
+    for lo, hi in (_split(0, 8, 2) if thorough else []):
         add(f"W2.bytevec_byte.a{lo}-{hi}", "P.write2", k + 3, [("a", lo, hi), ("b", 0, 9)],
             [mk, f"val = ByteVec(); val.append(bytes([x{k}])); val.append(bytes([x{k + 1}]))",
              f"v.set_slice(a, a + 2, val); r_write(ref, a, bytes([x{k}, x{k + 1}]))",
              f"v.set_byte(b, x{k + 2}); r_write(ref, b, bytes([x{k + 2}]))", "return full_reads(v, ref)"])
-        add(f"W2.byte_mcopy.a{lo}-{hi}", "P.write2", k + 1, [("a", lo, hi), ("d", 0, 7), ("s", 0, 7)],
+        add(f"W2.byte_mcopy.a{lo}-{hi}", "P.write2", k + 1, [("a", lo, hi), ("d", 0, 5), ("s", 0, 5)],
             [mk, f"v.set_byte(a, x{k}); r_write(ref, a, bytes([x{k}]))", "mcopy(v, ref, d, s, 2)",
              "return full_reads(v, ref)"])
 
     # ---- copy independence --------------------------------------------------------------------------------
     for who, other in (("v", "c"), ("c", "v")):
-        for lo, hi in _split(0, 12, 2):
+        for lo, hi in (_split(0, 12, 2) if thorough else [(0, 8)]):
             add(f"C.copy_write_{'original' if who == 'v' else 'copy'}.a{lo}-{hi}", "P.copy", k + 3,
                 [("n", 0, 3), ("a", lo, hi)],
                 [mk, "c = v.copy(); cref = bytearray(ref)", f"d = bytes([x{k}, x{k + 1}, x{k + 2}][:n])",
                  f"{who}.set_slice(a, a + len(d), d); r_write({'ref' if who == 'v' else 'cref'}, a, d)",
                  "return full_reads(c, cref) and full_reads(v, ref)"])
-    add("C.slice_write_original", "P.copy", k + 1, [("s", 0, 7), ("e", 0, 8), ("a", 0, 7)],
-        [mk, "sl = v.slice(s, e); sref = bytearray(r_read(ref, s, e))",
+    for lo, hi in (_split(0, 7, 4) if thorough else []):
+        add(f"C.slice_write_original.s{lo}-{hi}", "P.copy", k + 1, [("s", lo, hi), ("e", 0, 8), ("a", 0, 7)], [mk, "sl = v.slice(s, e); sref = bytearray(r_read(ref, s, e))",
          f"v.set_byte(a, x{k}); r_write(ref, a, bytes([x{k}]))",
          "return full_reads(sl, sref) and full_reads(v, ref)"])
     # a ByteVec written into / appended to another one is a copy of its content at that time
@@ -180,7 +182,7 @@ def fn_name(name: str) -> str:
 
 
 _MSG = re.compile(r"^(?P<file>[^:]+):(?P<line>\d+): (?P<kind>info|error): (?P<msg>.*)$")
-_CALL = re.compile(r"when calling (?P<call>c_\w+\(.*\))(?: \(which (?:returns|raises) .*\))?\s*$")
+_CALL = re.compile(r"when calling (?P<call>c_\w+\([^()]*\))")
 
 
 def run_one(path: str, line: int, cap_s: float, env: dict) -> dict:
